@@ -840,8 +840,8 @@ DATE_UNITS = ["century", "year", "iso_year", "quarter", "month", "week", "iso_we
               "sunday_start_week", "hour", "minute"]
 
 
-def date_ctx(E):
-    y = E.int_in("y", "i32", 1, 9999)
+def date_ctx(E, ylo=1, yhi=9999):
+    y = E.int_in("y", "i32", ylo, yhi)
     m = E.int_in("m", "u32", 1, 12)
     d = E.int_in("d", "u32", 1, 31)
     E.assume(d <= dim(y, m))
@@ -880,12 +880,12 @@ def o_trunc(E, unit, y, m, d, n):
     return n
 
 
-def s10_date(E, which):
+def s10_date(E, which, ylo=1, yhi=9999):
     """Date truncation, unit number `which`, for EVERY real date: the greatest unit boundary not
     after it, DateOutOfRange iff that boundary precedes 0001-01-01.  Date::extract is replaced by its
     contract for the date under test (C01 decides it)."""
     unit = DATE_UNITS[which]
-    y, m, d, n = date_ctx(E)
+    y, m, d, n = date_ctx(E, ylo, yhi)
     b = o_trunc(E, unit, y, m, d, n)
     cands = [f for f in E.by_last["trunc_" + unit] if f.name.startswith("date::")]
     for pc, out in E.run(cands[0], [date_of(n)], []):
@@ -932,13 +932,13 @@ def o_round(E, unit, y, m, d, n, y00_up):
     return n
 
 
-def s11_date(E, which, y00_mode=0):
+def s11_date(E, which, ylo=1, yhi=9999, y00_mode=0):
     """Date rounding, unit number `which`, for EVERY real date: the documented neighbour,
     DateOutOfRange iff it lies after 9999-12-31.  y00_mode: 0 = years divisible by 100 excluded (for
     the century unit), 1 = only those years with the stated rule (known finding), 2 = only those
     years with the behaviour pinned by the repository's own test."""
     unit = DATE_UNITS[which]
-    y, m, d, n = date_ctx(E)
+    y, m, d, n = date_ctx(E, ylo, yhi)
     if unit == "century":
         E.assume((y % 100 == 0) if y00_mode else (y % 100 != 0))
     b = o_round(E, unit, y, m, d, n, y00_mode != 2)
@@ -1018,3 +1018,334 @@ def s17_cmp(E):
                 yield pc, "panic", r
                 continue
             yield pc, ord_is(r, av, bv), "%s partial_cmp %s" % (ta, tb)
+
+
+# ------------------------------------------------------------------------------------- C17 / C10 / C11 (Timestamp)
+TS_METHODS = ["trunc_century", "trunc_year", "trunc_iso_year", "trunc_quarter", "trunc_month", "trunc_week",
+              "trunc_iso_week", "trunc_month_start_week", "trunc_day", "trunc_sunday_start_week",
+              "round_century", "round_year", "round_iso_year", "round_quarter", "round_month",
+              "round_week", "round_iso_week", "round_month_start_week", "round_sunday_start_week"]
+
+
+def uf(name, n):
+    sig = [z3.IntSort()] * n
+    return (z3.Function(name + "_val", *(sig + [z3.IntSort()])), z3.Function(name + "_ok", *(sig + [z3.BoolSort()])),
+            z3.Function(name + "_err", *(sig + [z3.IntSort()])))
+
+
+def s17_ts_delegation(E, which):
+    """A timestamp operation is the Date operation on its date part - moved to the next day from
+    noon on for the week roundings - at midnight, errors passed through.  The Date-level operations
+    are uninterpreted functions of their arguments here (they are decided by s10_date / s11_date /
+    c11_date), so calling them with anything but the right date (and year / day of month) is a
+    counterexample.  Decided for every valid timestamp."""
+    name = TS_METHODS[which]
+    u = E.int_in("u", "i64", TS_MIN, TS_MAX)
+    n, t = u / D, u % D
+    inner = {"round_week": "round_week_internal", "round_month_start_week": "round_month_start_week_internal"}.get(name, name)
+    nargs = 2 if inner.endswith("_internal") else 1
+    V, OK, ER = uf(inner, nargs)
+    Y = z3.Function("year_of", z3.IntSort(), z3.IntSort())
+    M = z3.Function("month_of", z3.IntSort(), z3.IntSort())
+    Dd = z3.Function("day_of", z3.IntSort(), z3.IntSort())
+    called = []
+
+    def ints(args):
+        out = []
+        for a in args:
+            while isinstance(a, Struct):
+                a = a.f[0]
+            out.append(a)
+        return out
+
+    def stub(eng, args, pcs, callee):
+        a = ints(args)
+        called.append(callee)
+        yield pcs + [V(*a) >= DAY_MIN, V(*a) <= DAY_MAX, ER(*a) >= 0, ER(*a) <= 15], \
+            ("ret", Enum(z3.If(OK(*a), 0, 1), {"Ok": [date_of(V(*a))], "Err": [Enum(ER(*a), {}, "error::Error")]}, "Result"))
+
+    def stub_extract(eng, args, pcs, callee):
+        a = ints(args)[0]
+        yield pcs + [Y(a) >= 1, Y(a) <= 9999, M(a) >= 1, M(a) <= 12, Dd(a) >= 1, Dd(a) <= 31], ("ret", Struct([Y(a), M(a), Dd(a)]))
+    E.stubs[inner] = (lambda c: "date::Date" in c or "Date::" in c, stub)
+    E.stubs["extract"] = (lambda c: "date::Date" in c or c.endswith("Date::extract"), stub_extract)
+    cands = [f for f in E.by_last[name] if f.name.startswith("timestamp::")]
+    if len(cands) != 1:
+        raise Unsupported("timestamp %s" % name)
+    week_round = name in ("round_week", "round_iso_week", "round_month_start_week", "round_sunday_start_week")
+    n2 = n + z3.If(t >= D // 2, 1, 0) if week_round else n
+    if name == "round_week":
+        eargs = [n2, Y(n2)]
+    elif name == "round_month_start_week":
+        eargs = [n2, Dd(n2)]
+    else:
+        eargs = [n2]
+    for pc, out in E.run(cands[0], [ts_of(u)], []):
+        if out[0] == "panic":
+            yield pc, "panic", out[1]
+            continue
+        r = out[1]
+        if name == "trunc_day":
+            yield pc, z3.And(r.d == 0, ok_payload(r).f[0] == n * D), "Timestamp::trunc_day = midnight of its date"
+            continue
+        okv = ok_payload(r).f[0] == V(*eargs) * D if "Ok" in r.p else z3.BoolVal(False)
+        errv = r.p["Err"][0].d == ER(*eargs) if "Err" in r.p else z3.BoolVal(False)
+        shifted_out = n2 > DAY_MAX
+        post = z3.If(shifted_out, err_is(r, "DateOutOfRange"),
+                     z3.If(OK(*eargs), z3.And(r.d == 0, okv), z3.And(r.d == 1, errv)))
+        yield pc, post, "Timestamp::%s = Date::%s on the (noon-shifted) date part, at midnight" % (name, inner)
+    if name != "trunc_day" and not called:
+        raise Unsupported("the Date operation was never called")
+
+
+# ------------------------------------------------------------------------------------- constructor grids (second engine)
+def s01_accept(E):
+    """every (i32, u32, u32): try_from_ymd / validate_ymd / is_valid accept exactly the real dates of
+    years 1..=9999, with the documented error precedence; every i32 day number for try_from_days"""
+    y = E.int_in("y", "i32")
+    m = E.int_in("m", "u32")
+    d = E.int_in("d", "u32")
+    ok = valid_ymd(y, m, d)
+    for k, pc, r in run(E, "try_from_ymd", ["i32", "u32", "u32"], [y, m, d]):
+        if k == "panic":
+            yield pc, "panic", r
+            continue
+        yield pc, z3.If(ok, r.d == 0, ymd_error(r, y, m, d)), "try_from_ymd accept/reject and error precedence"
+        if "Ok" in r.p:
+            yield pc, z3.Implies(r.d == 0, z3.And(ok_payload(r).f[0] >= DAY_MIN, ok_payload(r).f[0] <= DAY_MAX)), "accepted dates are in range"
+    for k, pc, r in run(E, "validate_ymd", ["i32", "u32", "u32"], [y, m, d]):
+        if k == "panic":
+            yield pc, "panic", r
+            continue
+        yield pc, z3.If(ok, r.d == 0, ymd_error(r, y, m, d)), "validate_ymd agrees"
+    f = [x for x in E.by_last["is_valid"] if x.name.startswith("date::")]
+    for pc, out in E.run(f[0], [y, m, d], []):
+        if out[0] == "panic":
+            yield pc, "panic", out[1]
+            continue
+        yield pc, out[1] == ok, "Date::is_valid agrees"
+    n = E.int_in("n", "i32")
+    for k, pc, r in run(E, "try_from_days", ["i32"], [n]):
+        if k == "panic":
+            yield pc, "panic", r
+            continue
+        inr = z3.And(n >= DAY_MIN, n <= DAY_MAX)
+        okv = ok_payload(r).f[0] == n if "Ok" in r.p else z3.BoolVal(False)
+        yield pc, z3.If(inr, z3.And(r.d == 0, okv), err_is(r, "DateOutOfRange")), "try_from_days accepts exactly the in-range day numbers"
+
+
+def s07_time_ctor(E):
+    h = E.int_in("h", "u32")
+    mi = E.int_in("mi", "u32")
+    s = E.int_in("s", "u32")
+    us = E.int_in("us", "u32")
+    ok = z3.And(h < 24, mi < 60, s < 60, us < 1_000_000)
+    total = h * 3_600_000_000 + mi * 60_000_000 + s * 1_000_000 + us
+    for k, pc, r in run(E, "try_from_hms", ["u32", "u32", "u32", "u32"], [h, mi, s, us]):
+        if k == "panic":
+            yield pc, "panic", r
+            continue
+        okv = ok_payload(r).f[0] == total if "Ok" in r.p else z3.BoolVal(False)
+        err = z3.If(h >= 24, err_is(r, "TimeOutOfRange"), z3.If(mi >= 60, err_is(r, "InvalidMinute"),
+                    z3.If(s >= 60, err_is(r, "InvalidSecond"), err_is(r, "InvalidFraction"))))
+        yield pc, z3.If(ok, z3.And(r.d == 0, okv), err), "Time::try_from_hms accepts exactly h<24, m<60, s<60, us<1e6"
+    f = [x for x in E.by_last["is_valid"] if x.name.startswith("time::")]
+    for pc, out in E.run(f[0], [h, mi, s, us], []):
+        if out[0] == "panic":
+            yield pc, "panic", out[1]
+            continue
+        yield pc, out[1] == ok, "Time::is_valid agrees"
+    t = E.int_in("t", "i64")
+    f = [x for x in E.by_last["try_from_usecs"] if x.name.startswith("time::")]
+    for pc, out in E.run(f[0], [t], []):
+        if out[0] == "panic":
+            yield pc, "panic", out[1]
+            continue
+        r = out[1]
+        okv = ok_payload(r).f[0] == t if "Ok" in r.p else z3.BoolVal(False)
+        yield pc, z3.If(z3.And(t >= 0, t < D), z3.And(r.d == 0, okv), err_is(r, "TimeOutOfRange")), "Time::try_from_usecs"
+
+
+def s13_ctor(E):
+    yy = E.int_in("yy", "u32")
+    mm = E.int_in("mm", "u32")
+    okym = z3.And(mm < 12, yy * 12 + mm <= YM_MAX)
+    for k, pc, r in run(E, "try_from_ym", ["u32", "u32"], [yy, mm]):
+        if k == "panic":
+            yield pc, "panic", r
+            continue
+        okv = ok_payload(r).f[0] == yy * 12 + mm if "Ok" in r.p else z3.BoolVal(False)
+        err = z3.If(z3.Or(yy > 178_000_000, z3.And(yy == 178_000_000, mm != 0)), err_is(r, "IntervalOutOfRange"), err_is(r, "InvalidMonth"))
+        yield pc, z3.If(okym, z3.And(r.d == 0, okv), err), "IntervalYM::try_from_ym accepts exactly the tuples inside the range"
+    for k, pc, r in run(E, "is_valid_ym", ["u32", "u32"], [yy, mm]):
+        if k == "panic":
+            yield pc, "panic", r
+            continue
+        yield pc, r == okym, "is_valid_ym agrees"
+    km = E.int_in("months", "i32")
+    for k, pc, r in run(E, "try_from_months", ["i32"], [km]):
+        if k == "panic":
+            yield pc, "panic", r
+            continue
+        okv = ok_payload(r).f[0] == km if "Ok" in r.p else z3.BoolVal(False)
+        yield pc, z3.If(z3.And(km >= -YM_MAX, km <= YM_MAX), z3.And(r.d == 0, okv), err_is(r, "IntervalOutOfRange")), "try_from_months"
+    d = E.int_in("d", "u32")
+    h = E.int_in("h", "u32")
+    mi = E.int_in("mi", "u32")
+    s = E.int_in("s", "u32")
+    us = E.int_in("us", "u32")
+    fields = z3.And(h < 24, mi < 60, s < 60, us < 1_000_000)
+    total = d * D + h * 3_600_000_000 + mi * 60_000_000 + s * 1_000_000 + us
+    okdt = z3.And(fields, total <= DT_MAX)
+    for k, pc, r in run(E, "try_from_dhms", ["u32", "u32", "u32", "u32", "u32"], [d, h, mi, s, us]):
+        if k == "panic":
+            yield pc, "panic", r
+            continue
+        okv = ok_payload(r).f[0] == total if "Ok" in r.p else z3.BoolVal(False)
+        toobig = z3.Or(d > 100_000_000, z3.And(d == 100_000_000, z3.Or(h != 0, mi != 0, s != 0, us != 0)))
+        err = z3.If(toobig, err_is(r, "IntervalOutOfRange"), z3.If(h >= 24, err_is(r, "TimeOutOfRange"),
+                    z3.If(mi >= 60, err_is(r, "InvalidMinute"), z3.If(s >= 60, err_is(r, "InvalidSecond"), err_is(r, "InvalidFraction")))))
+        yield pc, z3.If(okdt, z3.And(r.d == 0, okv), err), "IntervalDT::try_from_dhms accepts exactly the tuples inside the range"
+    f = [x for x in E.by_last["is_valid"] if x.name.startswith("interval::")]
+    for pc, out in E.run(f[0], [d, h, mi, s, us], []):
+        if out[0] == "panic":
+            yield pc, "panic", out[1]
+            continue
+        yield pc, out[1] == okdt, "IntervalDT::is_valid agrees"
+    ku = E.int_in("usecs", "i64")
+    f = [x for x in E.by_last["try_from_usecs"] if x.name.startswith("interval::")]
+    for pc, out in E.run(f[0], [ku], []):
+        if out[0] == "panic":
+            yield pc, "panic", out[1]
+            continue
+        r = out[1]
+        okv = ok_payload(r).f[0] == ku if "Ok" in r.p else z3.BoolVal(False)
+        yield pc, z3.If(z3.And(ku >= -DT_MAX, ku <= DT_MAX), z3.And(r.d == 0, okv), err_is(r, "IntervalOutOfRange")), "IntervalDT::try_from_usecs"
+
+
+def s08_linear(E):
+    n = E.int_in("n", "i32", DAY_MIN, DAY_MAX)
+    k = E.int_in("k", "i32")
+    n2 = E.int_in("n2", "i32", DAY_MIN, DAY_MAX)
+    for name, exact in (("add_days", n + k), ("sub_days", n - k)):
+        f = [x for x in E.by_last[name] if x.name.startswith("date::")]
+        for pc, out in E.run(f[0], [date_of(n), k], []):
+            if out[0] == "panic":
+                yield pc, "panic", out[1]
+                continue
+            r = out[1]
+            okv = ok_payload(r).f[0] == exact if "Ok" in r.p else z3.BoolVal(False)
+            yield pc, z3.If(z3.And(exact >= DAY_MIN, exact <= DAY_MAX), z3.And(r.d == 0, okv), err_is(r, "DateOutOfRange")), "Date::%s exact, exactly range-checked" % name
+    for kk, pc, r in run(E, "sub_date", ["date::Date", "date::Date"], [date_of(n), date_of(n2)]):
+        if kk == "panic":
+            yield pc, "panic", r
+            continue
+        yield pc, r == n - n2, "Date::sub_date"
+    a = E.int_in("a", "i32", -YM_MAX, YM_MAX)
+    b = E.int_in("b", "i32", -YM_MAX, YM_MAX)
+    ym = lambda v: Struct([v], "interval::IntervalYM")
+    for name, exact in (("add_interval_ym", a + b), ("sub_interval_ym", a - b)):
+        for kk, pc, r in run(E, name, ["interval::IntervalYM", "interval::IntervalYM"], [ym(a), ym(b)]):
+            if kk == "panic":
+                yield pc, "panic", r
+                continue
+            okv = ok_payload(r).f[0] == exact if "Ok" in r.p else z3.BoolVal(False)
+            yield pc, z3.If(z3.And(exact >= -YM_MAX, exact <= YM_MAX), z3.And(r.d == 0, okv), err_is(r, "IntervalOutOfRange")), "IntervalYM::%s" % name
+    p = E.int_in("p", "i64", -DT_MAX, DT_MAX)
+    q = E.int_in("q", "i64", -DT_MAX, DT_MAX)
+    t = E.int_in("t", "i64", 0, D - 1)
+    for name, arg, aty, exact in (("add_interval_dt", dt_of(q), "interval::IntervalDT", p + q), ("sub_interval_dt", dt_of(q), "interval::IntervalDT", p - q),
+                                  ("sub_time", time_of(t), "time::Time", p - t)):
+        for kk, pc, r in run(E, name, ["interval::IntervalDT", aty], [dt_of(p), arg]):
+            if kk == "panic":
+                yield pc, "panic", r
+                continue
+            okv = ok_payload(r).f[0] == exact if "Ok" in r.p else z3.BoolVal(False)
+            yield pc, z3.If(z3.And(exact >= -DT_MAX, exact <= DT_MAX), z3.And(r.d == 0, okv), err_is(r, "IntervalOutOfRange")), "IntervalDT::%s" % name
+
+
+def s09_last_day(E):
+    """last_day_of_month of a Date / Timestamp: the value moved forward by (month length - day of
+    month) whole days, i.e. the final day (28/29/30/31 by the leap rule) of its own month - days of
+    one month are consecutive day numbers (C01 step) - with the time of day unchanged."""
+    y = E.int_in("y", "i32", 1, 9999)
+    m = E.int_in("m", "u32", 1, 12)
+    d = E.int_in("d", "u32", 1, 31)
+    E.assume(d <= dim(y, m))
+    n = E.int_in("n", "i32", DAY_MIN, DAY_MAX)
+    t = E.int_in("t", "i64", 0, D - 1)
+    # the date's own day number is consistent with its triple: it has room for the rest of the month
+    E.assume(n + (dim(y, m) - d) <= DAY_MAX)
+
+    def stub(eng, args, pcs, callee):
+        a = args[0].f[0]
+        yield pcs + [a == n], ("ret", Struct([y, m, d]))
+    E.stubs["extract"] = (lambda c: "date::Date" in c or c.endswith("Date::extract"), stub)
+    f = [x for x in E.by_last["last_day_of_month"] if x.name.startswith("date::")]
+    for pc, out in E.run(f[0], [date_of(n)], []):
+        if out[0] == "panic":
+            yield pc, "panic", out[1]
+            continue
+        yield pc, out[1].f[0] == n + dim(y, m) - d, "Date::last_day_of_month = same month, day = month length"
+    f = [x for x in E.by_last["last_day_of_month"] if x.name.startswith("timestamp::")]
+    for pc, out in E.run(f[0], [ts_of(n * D + t)], []):
+        if out[0] == "panic":
+            yield pc, "panic", out[1]
+            continue
+        yield pc, out[1].f[0] == (n + dim(y, m) - d) * D + t, "Timestamp::last_day_of_month keeps the time of day"
+
+
+# ------------------------------------------------------------------------------------- C18 (now)
+def clock_stubs(E, cy, cm, cd, ch, cmi, cs, cus):
+    """chrono is environment: Local::now()/naive_local() are opaque, its field accessors return the
+    symbolic clock (which is constrained to a real calendar instant - chrono's documented contract)"""
+    def opaque(eng, args, pcs, callee):
+        yield pcs, ("ret", Struct([], "clock"))
+
+    def acc(v):
+        def f(eng, args, pcs, callee):
+            yield pcs, ("ret", v)
+        return f
+    is_chrono = lambda c: "chrono::" in c
+    E.stubs["now"] = (is_chrono, opaque)
+    E.stubs["naive_local"] = (is_chrono, opaque)
+    for name, v in (("year", cy), ("month", cm), ("day", cd), ("hour", ch), ("minute", cmi), ("second", cs),
+                    ("timestamp_subsec_micros", cus)):
+        E.stubs[name] = (is_chrono, acc(v))
+
+
+def s18_now(E):
+    """the now() constructors and the time-of-day conversions report the current local date/time,
+    for every clock value (any real calendar instant of years 1..=9999, to the microsecond)"""
+    cy = E.int_in("cy", "i32", 1, 9999)
+    cm = E.int_in("cm", "u32", 1, 12)
+    cd = E.int_in("cd", "u32", 1, 31)
+    ch = E.int_in("ch", "u32", 0, 23)
+    cmi = E.int_in("cmi", "u32", 0, 59)
+    cs = E.int_in("cs", "u32", 0, 59)
+    cus = E.int_in("cus", "u32", 0, 999_999)
+    t = E.int_in("t", "i64", 0, D - 1)
+    E.assume(cd <= dim(cy, cm))
+    clock_stubs(E, cy, cm, cd, ch, cmi, cs, cus)
+    n = dn(E, cy, cm, cd)
+    tod = ch * 3_600_000_000 + cmi * 60_000_000 + cs * 1_000_000
+    for mod, expect in (("date::", n), ("timestamp::", n * D + tod + cus), ("oracle::", n * D + tod)):
+        f = [x for x in E.by_last["now"] if x.name.startswith(mod)]
+        if len(f) != 1:
+            raise Unsupported("now() in " + mod)
+        for pc, out in E.run(f[0], [], []):
+            if out[0] == "panic":
+                yield pc, "panic", out[1]
+                continue
+            r = out[1]
+            okv = raw_of(ok_payload(r)) == expect if "Ok" in r.p else z3.BoolVal(False)
+            yield pc, z3.And(r.d == 0, okv), "%snow() = the current local date/time" % mod
+    for ret, expect in (("timestamp::Timestamp", n * D + t), ("oracle::Date", n * D + t - t % 1_000_000)):
+        f = E.find("try_from", ["time::Time"], "std::result::Result<%s, error::Error>" % ret)
+        for pc, out in E.run(f, [time_of(t)], []):
+            if out[0] == "panic":
+                yield pc, "panic", out[1]
+                continue
+            r = out[1]
+            okv = raw_of(ok_payload(r)) == expect if "Ok" in r.p else z3.BoolVal(False)
+            yield pc, z3.And(r.d == 0, okv), "TryFrom<Time> for %s = that time on the current local date" % ret
